@@ -352,6 +352,11 @@ func injRunPlain(c *injCase, tr *traceWriter) {
 			emitInvoke(tr, s, k, true, rec2, vals, err)
 		}
 		a1 := A1{F3: T2{99}, f4: N1("keep")}
+		if s%2 == 1 {
+			// a struct that is not fresh: tagged fields already hold something (an earlier Apply, a caller's default); Apply
+			// sets every tagged field from the injector all the same, and reports a type it cannot resolve
+			a1.F1, a1.F2, a1.F5 = T1{777}, T2{778}, &T1{779}
+		}
 		err := inj[s].Apply(&a1)
 		e := map[string]interface{}{"ev": "apply", "s": s, "fields": []string{"T1", "I2", "PT1"}, "err": err != nil, "errtype": "",
 			"got": []injVal{idValOrNone(a1.F1, a1.F1 != T1{}), idVal(a1.F2), idVal(a1.F5)}, "untouched": a1.F3 == T2{99} && a1.f4 == "keep"}
@@ -360,6 +365,9 @@ func injRunPlain(c *injCase, tr *traceWriter) {
 		}
 		tr.emit(e)
 		a2 := A2{}
+		if s%2 == 0 {
+			a2.G1, a2.G3 = &T1{780}, make(chan int, 781)
+		}
 		err = inj[s].Apply(&a2)
 		e = map[string]interface{}{"ev": "apply", "s": s, "fields": []string{"I3", "RCH", "CH"}, "err": err != nil, "errtype": "",
 			"got": []injVal{idVal(a2.G1), idVal(a2.G2), idVal(a2.G3)}, "untouched": true}
